@@ -17,7 +17,7 @@ def shipped_hooks():
     return open(os.path.join(REPO, "acmed", "config", "default_hooks.toml")).read()
 
 
-def make_req(group, ident, issuances, with_git, port=None, defaulted=(), key_type="ecdsa-p256"):
+def make_req(group, ident, issuances, with_git, port=None, defaulted=(), key_type="ecdsa-p256", host="127.0.0.1"):
     challenge = "http-01" if group.startswith("http") else "tls-alpn-01"
     env = {}
     if "HTTP_ROOT" not in defaulted:
@@ -30,7 +30,7 @@ def make_req(group, ident, issuances, with_git, port=None, defaulted=(), key_typ
         if "TACD_PORT" not in defaulted:
             env["TACD_PORT"] = str(port)
         if "TACD_HOST" not in defaulted:
-            env["TACD_HOST"] = "127.0.0.1"
+            env["TACD_HOST"] = host
     cert_hooks = [group] + (["git"] if with_git else [])
     doc = {
         "include": ["default_hooks.toml"],
@@ -43,7 +43,7 @@ def make_req(group, ident, issuances, with_git, port=None, defaulted=(), key_typ
     if group.endswith("unix"):
         validate["tls"] = {"mode": "unix", "sock_root": "@DIR@/run-sock"}
     else:
-        validate["tls"] = {"mode": "tcp", "addr": "127.0.0.1:%s" % (port if "TACD_PORT" not in defaulted else 5001)}
+        validate["tls"] = {"mode": "tcp", "addr": "%s:%s" % (host if "TACD_HOST" not in defaulted else "127.0.0.1", port if "TACD_PORT" not in defaulted else 5001)}
     req = cfg.scenario(doc, cas=[{"validate": validate, "cert_lifetime_s": 10 * 86400}], phases=[{"attempts": issuances, "wall_budget_ms": 60000}])
     req["files"]["default_hooks.toml"] = shipped_hooks()
     req["files"]["www/.keep"] = ""
@@ -53,7 +53,7 @@ def make_req(group, ident, issuances, with_git, port=None, defaulted=(), key_typ
                   "GIT_CONFIG_GLOBAL": "/dev/null"}
     req["keep_dir"] = True
     req["observe_files"] = True
-    req["meta"] = {"group": group, "ident": ident, "issuances": issuances, "git": with_git, "defaulted": list(defaulted), "port": port}
+    req["meta"] = {"group": group, "ident": ident, "issuances": issuances, "git": with_git, "defaulted": list(defaulted) + ([] if host == "127.0.0.1" else ["host=" + host]), "port": port}
     return req
 
 
@@ -147,6 +147,9 @@ def run(ctx):
                     reqs.append(make_req(group, ident, k, with_git, port=bb.free_port()))
     # defaulted variables (the default must be usable by the test user): TACD_HOST defaults to the identifier, which only resolves for localhost
     reqs.append(make_req("tls-alpn-01-tacd-tcp", "localhost", 2, False, port=bb.free_port(), defaulted=("TACD_HOST",)))
+    # TACD_HOST in the other address forms a listener accepts: IPv6 literal, host name, wildcard address
+    for host in ("[::1]", "localhost", "0.0.0.0"):
+        reqs.append(make_req("tls-alpn-01-tacd-tcp", "a.example", 2, False, port=bb.free_port(), host=host))
     obs_list = []
     # tcp scenarios with the default port must not run concurrently; everything else can
     obs_list = ctx.pool.map(reqs, 180.0)
